@@ -14,6 +14,7 @@ import Mimic.Extracted.Stream
 import Mimic.Dispatch
 import Mimic.Variables
 import Mimic.Extracted.Variables
+import Mimic.Charset
 import Mimic.Extracted.Session
 import Mimic.Extracted.Charset
 /-! Line-protocol driver pieces: one `handle` per domain. Unknown input is answered `bad-op`, never defaulted. -/
@@ -644,6 +645,25 @@ def varOps (st : St) : List String → St × String
       | none => (st, "bad-op")
   | _ => (st, "bad-op")
 
+/-! character sets in force -/
+
+open Mimic.Charset in
+def parseCsEv (s : String) : Option Ev :=
+  if s = "O" then some .other
+  else if s.startsWith "H:" then ((s.drop 2).toString.toNat?).map .handshake
+  else if s = "U:-" then some (.changeUser none)
+  else if s.startsWith "U:" then ((s.drop 2).toString.toNat?).map (fun n => .changeUser (some n))
+  else if s.startsWith "S:" then (optAllL (((s.drop 2).toString.splitOn "+").map parseItem)).map .setStmt
+  else none
+
+def csOps (_st : St) : List String → String
+  | "run" :: evs => match optAllL (evs.map parseCsEv) with
+      | some evs =>
+        let t := Mimic.Charset.trace varSchema varCs varDc Mimic.Extracted.Charset.collations ⟨[], true⟩ evs
+        " ".intercalate (t.map (fun p => p.1 ++ "/" ++ p.2))
+      | none => "bad-op"
+  | _ => "bad-op"
+
 def handle (st : St) (line : String) : St × String :=
   match words line with
   | "ctl" :: rest => ctl st rest
@@ -658,6 +678,7 @@ def handle (st : St) (line : String) : St × String :=
   | "strm" :: rest => (st, strm st rest)
   | "dsp" :: rest => (st, dsp st rest)
   | "var" :: rest => varOps st rest
+  | "cs" :: rest => (st, csOps st rest)
   | _ => (st, "bad-op")
 
 end Mimic.Drv
